@@ -43,7 +43,10 @@ def scratch():
     if _scratch is None:
         base = os.environ.get("VERIF_SCRATCH_BASE") or tempfile.gettempdir()
         _scratch = tempfile.mkdtemp(prefix="verif-", dir=base)
-        atexit.register(lambda: shutil.rmtree(_scratch, ignore_errors=True))
+        if not os.environ.get("VERIF_KEEP_SCRATCH"):
+            atexit.register(lambda: shutil.rmtree(_scratch, ignore_errors=True))
+        else:
+            print("scratch kept:", _scratch)
     return _scratch
 
 
@@ -163,7 +166,9 @@ def run_tlc(module, cfg=None, workers=8, env=None, timeout=1800, simulate=None, 
         shutil.rmtree(meta, ignore_errors=True)
     r = TlcResult(p.stdout, p.returncode, time.time() - t0)
     if p.returncode != 0 and r.violated is None:
-        tail = "\n".join(p.stdout.splitlines()[-40:])
+        lines = p.stdout.splitlines()
+        first = next((i for i, l in enumerate(lines) if l.startswith("Error")), max(0, len(lines) - 40))
+        tail = "\n".join(lines[first:first + 25])
         raise Machinery("TLC failed on %s (rc=%s):\n%s" % (module, p.returncode, tail))
     return r
 
